@@ -93,10 +93,26 @@ def check_c02(h):
         for k in ("op", "parent", "children", "meta"):
             if n1[i][k] != n2[i][k]:
                 return ("violation", f"node {order[i]} (listed at {i}): {k} differs after the round trip: {str(n1[i][k])[:60]} vs {str(n2[i][k])[:60]}")
+    ambiguous = False
     if l1 != l2:
-        lost = sorted((l1 - l2).elements())[:3]
-        extra = sorted((l2 - l1).elements())[:3]
-        return ("violation", f"links differ after the round trip: lost {lost} extra {extra}")
+        # a value link attached at exactly the order-port positions of two dataflow operations (ports the
+        # operations do not have) is written like a state-order edge and comes back as one
+        from hugr.hugr.node_port import Node
+        l1b = Counter()
+        for (s, t), k in l1.items():
+            so, to = order[s[0]], order[t[0]]
+            ps, pt = port_counts(h[Node(so)].op), port_counts(h[Node(to)].op)
+            if s[1] >= 0 and ps is not None and pt is not None and s[1] == ps[2] and t[1] == pt[0] + pt[1]:
+                l1b[((s[0], -1), (t[0], -1))] += k
+                ambiguous = True
+            else:
+                l1b[(s, t)] += k
+        if l1b != l2:
+            lost = sorted((l1 - l2).elements())[:3]
+            extra = sorted((l2 - l1).elements())[:3]
+            return ("violation", f"links differ after the round trip: lost {lost} extra {extra}")
+    if ambiguous:
+        return ("known", "C02-value-link-at-order-positions", "a value link attached at exactly the order-port positions of both operations is indistinguishable from a state-order edge on the wire")
     if order != sorted(order):
         return ("known", "C02-renumbering-vs-hierarchy", "index order contradicts hierarchy order (a child or later sibling has a smaller index): renumbering cannot be order-preserving")
     return None
